@@ -587,8 +587,13 @@ def _mat(node):
     """matrix expressions of svd_thresholding / procrustes over the oracle's answer"""
     if isinstance(node, ast.Name) and node.id in ("U", "V"):
         return node.id
-    if _is_call(node, "dot", "tl") and len(node.args) == 2 and not node.keywords:
+    if (_is_call(node, "dot", "tl") or _is_call(node, "matmul", "tl")) and len(node.args) == 2 and not node.keywords:
         return f"(mat_mul Op {_mat(node.args[0])} {_mat(node.args[1])})"
+    if isinstance(node, ast.BinOp) and isinstance(node.op, ast.MatMult):                # A @ B
+        return f"(mat_mul Op {_mat(node.left)} {_mat(node.right)})"
+    if _is_call(node, "diag", "tl") and len(node.args) == 1 and not node.keywords:      # tl.diag(vector): the identity with row l scaled by entry l
+        v = _vec(node.args[0])
+        return f"(scale_rows Op {v} (identity_mat Op (length {v})))"
     if isinstance(node, ast.BinOp) and isinstance(node.op, ast.Mult) and _is_call(node.left, "reshape", "tl") and len(node.left.args) == 2 \
             and ast.unparse(node.left.args[1]) == "(-1, 1)":
         return f"(scale_rows Op {_vec(node.left.args[0])} {_mat(node.right)})"      # a column vector times a matrix: row l scaled by entry l
